@@ -184,8 +184,12 @@ class Ctl:
         self.open_handles = 0
         self.record = True
         self.exc_factory = lambda name: OSError(5, "injected fault @" + name)
+        self.scope = None  # optional predicate(connection): count / fail only calls of matching sessions
+        self.on_fire = None
 
-    async def hit(self, name, path=None):
+    async def hit(self, name, path=None, conn=None):
+        if self.scope is not None and not self.scope(conn):
+            return
         self.n += 1
         if self.record:
             self.log.append((name, None if path is None else str(path)))
@@ -194,6 +198,8 @@ class Ctl:
             await asyncio.sleep(d(self.n) if callable(d) else d)
         if self.n in self.fail_at:
             self.fired.append((self.n, name))
+            if self.on_fire:
+                self.on_fire(self.n, name)
             raise self.exc_factory(name)
 
 
@@ -219,7 +225,7 @@ def instrument(base, ctl=None):
 
         @universal_exception
         async def m(self, path, *a, **k):
-            await ctl.hit(name, path)
+            await ctl.hit(name, path, self.connection)
             r = await orig(self, path, *a, **k)
             if name == "_open":
                 ctl.open_handles += 1
@@ -235,7 +241,7 @@ def instrument(base, ctl=None):
 
     @universal_exception
     async def rename(self, source, destination):
-        await ctl.hit("rename", f"{source} -> {destination}")
+        await ctl.hit("rename", f"{source} -> {destination}", self.connection)
         return await orig_rename(self, source, destination)
 
     Instrumented.rename = rename
@@ -248,7 +254,7 @@ def instrument(base, ctl=None):
         async def m(self, file, *a, **k):
             if name == "close":
                 ctl.open_handles -= 1  # the handle is gone from the session's point of view either way
-            await ctl.hit(name)
+            await ctl.hit(name, None, self.connection)
             return await orig(self, file, *a, **k)
 
         m.__name__ = name
@@ -261,11 +267,12 @@ def instrument(base, ctl=None):
 
     def lister(self, path):
         inner = orig_list(self, path)
+        conn = self.connection
 
         class Lister(aioftp.AbstractAsyncLister):
             @universal_exception
             async def __anext__(s):
-                await ctl.hit("list.next", path)
+                await ctl.hit("list.next", path, conn)
                 return await inner.__anext__()
 
         return Lister(timeout=self.timeout)
